@@ -34,13 +34,16 @@ TRUSTED = [
     "model domain: doubles with positional repr (0 or 1e-4 <= |x| < 1e16) other than -0.0, ASCII lines; inputs "
     "outside are only checked by the oracle and counted",
     "end to end (harness/e2e.py, Driver/EndToEnd.lean): the driver's repr(float) (pyRepr: nearest double, shortest "
-    "round-trip decimal) is an input of the report model tied by the byte-for-byte comparison; Gen/IsaDb_x86 is the "
-    "shipped isa/x86.yml (tied by C03's rolesdbcmp); glue domain of Model/Glue.lean (no indexed registers, segment "
-    "extensions, identifier displacements in compared memory operands)",
+    "round-trip decimal) is an input of the report model tied by the byte-for-byte comparison; Gen/IsaDb_x86 and "
+    "Gen/IsaDb_aarch64 are the shipped isa/x86.yml and isa/aarch64.yml (tied by C03's rolesdbcmp); glue domain of "
+    "Model/Glue.lean (x86: no indexed registers, segment extensions, identifier displacements in compared memory operands; "
+    "AArch64: no identifier / float offsets or symbolic post-index in memory operands, float immediates only where no "
+    "operation reads them, no port_pressure alternatives)",
 ]
 
 QUICK_ARCHS = ["spr", "v2", "zen2", "tx2"]
 E2E_SHIPPED = ["zen2", "spr"]      # shipped x86 models of the end-to-end correspondence (restricted to the reachable forms)
+E2E_SHIPPED_A64 = ["tx2", "a64fx"]  # shipped AArch64 models of the end-to-end correspondence
 
 
 # ------------------------------------------------------------------------------------------- plumbing
@@ -450,10 +453,11 @@ def level2_specs(ctx, archs, isa_of, volume):
 # ------------------------------------------------------------------------------------------- run
 def setup(ctx):
     ctx.assumptions = TRUSTED
-    ctx.prove(["ReportConsts"], ["OsacaVerif.Props.C13", "OsacaVerif.Props.EndToEnd"])
-    ctx.thorough_recheck(["OsacaVerif.Props.C13", "OsacaVerif.Props.EndToEnd"])
+    ctx.prove(["ReportConsts"], ["OsacaVerif.Props.C13", "OsacaVerif.Props.EndToEnd", "OsacaVerif.Props.EndToEndA64"])
+    ctx.thorough_recheck(["OsacaVerif.Props.C13", "OsacaVerif.Props.EndToEnd", "OsacaVerif.Props.EndToEndA64"])
     archs = QUICK_ARCHS if ctx.tier == "quick" else core.shipped_archs()
-    ctx.env = core.Env("C13", archs=archs)
+    # level 3 additionally reads the shipped models of the end-to-end correspondence (levels 1 and 2 keep their list)
+    ctx.env = core.Env("C13", archs=archs + [a for a in E2E_SHIPPED + E2E_SHIPPED_A64 if a not in archs])
     ctx.env.activate()
     import osaca.osaca as o
     from osaca.frontend import Frontend
@@ -499,11 +503,13 @@ def run(ctx):
             "analysis errors %d (%.0fs)" % (len(cases), ",".join(archs), c2, f2, len(errs), time.time() - t))
     for e in errs[:3]:
         ctx.log("  analysis error (not judged here): " + e)
-    # ---- level 3: from file text to the report inside the model (Model/EndToEnd.lean, driver op e2e.x86)
+    # ---- level 3: from file text to the report inside the model (Model/EndToEnd.lean, driver ops e2e.x86 / e2e.a64)
     t = time.time()
     boost3 = 3 if ctx.broken else 1
-    vol3, svol3 = ((6, 5) if ctx.tier == "quick" else (45, 45))
-    e2e.run_e2e_correspondence(ctx, vol3 * boost3, shipped=[a for a in E2E_SHIPPED if a in archs], shipped_volume=svol3 * boost3)
+    vol3, svol3 = ((5, 4) if ctx.tier == "quick" else (45, 45))
+    avol3, asvol3 = ((5, 4) if ctx.tier == "quick" else (40, 40))
+    e2e.run_e2e_correspondence(ctx, vol3 * boost3, shipped=E2E_SHIPPED, shipped_volume=svol3 * boost3,
+                               a64_volume=avol3 * boost3, a64_shipped=E2E_SHIPPED_A64, a64_shipped_volume=asvol3 * boost3)
     ctx.log("level 3 (file text -> report, model vs command line): %.0fs" % (time.time() - t))
     # ---- coverage
     ev = ctx.counts.get("L1_cases", 0) + ctx.counts.get("L2_cases", 0)
